@@ -214,6 +214,28 @@ def f_resmix(demands, durations=None):
     return {"plan.py": script(prog)}
 
 
+def f_resdetached(kind="fail", slow_len=4):
+    """Step A holds a limited resource while its creator p1 fails (kind=fail, needs keep-going) or
+    is deferred and re-executed (kind=defer): A is detached but still running. Step B of another
+    planning script needs the same resource."""
+    a = [["write_partial", "a.out"]] + [["nop"]] * (slow_len - 2) + [["write", "a.out", []]]
+    p1 = [["run", "./a.py", {"out": ["a.out"], "resources": {"gpu": 1}}]]
+    files = {"a.py": script(a), "b.py": script([["write", "b.out", []]]), "src.txt": "s\n"}
+    statics = ["static", "a.py", "b.py", "p1.py", "p2.py", "src.txt"]
+    root = [statics, ["plan", "./p1.py"], ["plan", "./p2.py"]]
+    if kind == "fail":
+        p1.append(["exit", 1])
+    else:
+        p1 += [["amend", {"inp": ["g.txt"]}], ["read", "g.txt"]]
+        statics.append("p3.py")
+        root.append(["plan", "./p3.py"])
+        files["p3.py"] = script([tr("G", ["src.txt"], ["g.txt"])])
+    files["p1.py"] = script(p1)
+    files["p2.py"] = script([["nop"], ["run", "./b.py", {"out": ["b.out"], "resources": {"gpu": 1}}]])
+    files["plan.py"] = script(root)
+    return files
+
+
 # -- F-prodcons (C03) --------------------------------------------------------------------------
 
 def f_prodcons(consumer="amend_first", producer_by="plan", declared=0, tree=0):
@@ -248,8 +270,8 @@ def f_prodcons4():
     files = {
         "src.txt": "src\n",
         "p.py": script([["write_partial", "o.txt"], ["write", "o.txt", ["src.txt"]]]),
-        "c.py": script([["tryread", "o.txt"], ["amend", {"inp": ["o.txt"]}], ["read", "o.txt"],
-                        ["write", "c.out", ["o.txt"]]]),
+        # C keeps what it read before the amendment: a stale read shows in c.out
+        "c.py": script([["stash", "o.txt"], ["amend", {"inp": ["o.txt"]}], ["write_stash", "c.out"]]),
         "z.py": script([["write", "z.out", []]]),
     }
     files["plan.py"] = script([
@@ -299,13 +321,15 @@ def f_treeamend():
 
 # -- more families for the history checks (C01, C04, C06, C07) -------------------------------------
 
-def f_glob(present=("a", "b"), mode="tree"):
-    """One step per file matching data/${*n}.txt; the matches are static by tree or by pattern."""
+def f_glob(present=("a", "b"), mode="tree", subs="none"):
+    """One step per file matching data/${*n}.txt; the matches are static by tree or by pattern.
+    subs="ab" restricts the named wildcard to [ab]: data/zz.txt then matches the default pattern
+    of the wildcard but not the glob."""
     files = {f"data/{n}.txt": f"data {n}\n" for n in present}
     files["data/"] = ""
     body = [tr("G", ["data/{n}.txt"], ["out/{n}.out"])]
     decl = ["static", "data/"] if mode == "tree" else ["static", "data/*.txt"]
-    files["plan.py"] = script([decl, ["glob", "data/${*n}.txt", {}, body]])
+    files["plan.py"] = script([decl, ["glob", "data/${*n}.txt", {} if subs == "none" else {"n": "[ab]"}, body]])
     return files
 
 
@@ -320,9 +344,15 @@ def f_env(value=None, how="declared", v=1):
     return {"plan.py": script(root, v=v), "e.py": script(e)}
 
 
-def f_vol(outdir="out/deep", log="vol", workdir=".", present=1):
-    """V: a step with a nested output directory, a volatile log and a working directory."""
+def f_vol(outdir="out/deep", log="vol", workdir=".", present=1, adopt="none"):
+    """V: a step with a nested output directory, a volatile log and a working directory.
+    adopt: once the step is dropped (present=0) the plan declares its former outputs static,
+    as a tree (out/) or as a file (out/log.txt): the user keeps them as sources."""
     prog = [["static", "src.txt"]]
+    if not present and adopt == "tree":
+        prog.append(["static", "out/"])
+    elif not present and adopt == "file":
+        prog.append(["static", "out/log.txt"])
     if present:
         kw = {"inp": ["src.txt"], "out": [f"{outdir}/o.txt"]}
         if log == "vol":
@@ -374,12 +404,13 @@ DOMAINS = {
     "f_chain": {"a_tag": (1, 2), "b": (1, 0), "b_need": ("DEFAULT", "OPTIONAL"),
                 "b_out": ("b.txt", "b2.txt"), "c": (1, 0), "src": ("x", "y"), "src_exists": (1, 0)},
     "f_subplan": {"sub": (1, 0), "where": ("sub", "root"), "inputs": ("explicit", "tree")},
-    "f_glob": {"present": (("a", "b"), ("a",), ("a", "b", "c"), ()), "mode": ("tree", "pattern")},
+    "f_glob": {"present": (("a", "b"), ("a",), ("a", "b", "c"), (), ("a", "zz")), "mode": ("tree", "pattern"),
+               "subs": ("none", "ab")},
     "f_amend": {"version": ("inp", "none", "inp_out"), "extra": ("static", "built", "absent"),
                 "order": ("amend_first", "read_first")},
     "f_env": {"how": ("declared", "amended"), "v": (1, 2)},
     "f_vol": {"outdir": ("out/deep", "out2"), "log": ("vol", "out", "none"),
-              "workdir": (".", "wd", "wd/in"), "present": (1, 0)},
+              "workdir": (".", "wd", "wd/in"), "present": (1, 0), "adopt": ("none", "tree", "file")},
     "f_redefine": {"inp": (("src.txt",), (), ("src.txt", "src2.txt")), "out": (("r.txt",), ("r.txt", "r2.txt"))},
     "f_optional": {"u": (1, 0), "o2_need": ("OPTIONAL", "DEFAULT"), "src": ("x", "y")},
     "f_selfprod": {"sub": (1, 0)},
